@@ -2,6 +2,7 @@ package j5schema
 
 import (
 	"fmt"
+	"sync"
 
 	"github.com/pentops/j5/gen/j5/ext/v1/ext_j5pb"
 	"google.golang.org/protobuf/proto"
@@ -9,7 +10,15 @@ import (
 )
 
 // SchemaCache acts like PackageSet, but builds schemas on demand from reflection.
+//
+// A SchemaCache is safe for concurrent use: mu guards the packages map, the
+// Schemas map of every package in it and the To link of every RefSchema
+// registered there. A whole build (registering the placeholder, building the
+// referenced schemas, linking) runs under the lock, so callers never observe a
+// placeholder which has not been linked yet. Schemas are not modified after
+// Schema returns them.
 type SchemaCache struct {
+	mu       sync.Mutex
 	packages map[string]*Package
 }
 
@@ -21,6 +30,15 @@ func NewSchemaCache() *SchemaCache {
 
 // Schema returns the J5 schema for the given message descriptor.
 func (sc *SchemaCache) Schema(src protoreflect.MessageDescriptor) (RootSchema, error) {
+	sc.mu.Lock()
+	defer sc.mu.Unlock()
+	return sc.schema(src)
+}
+
+// schema is Schema without the lock. Building a schema recurses into refTo and
+// referencePackage through Package.PackageSet, which must not lock again.
+// Callers must hold sc.mu.
+func (sc *SchemaCache) schema(src protoreflect.MessageDescriptor) (RootSchema, error) {
 	packageName, nameInPackage := splitDescriptorName(src)
 	schemaPackage := sc.referencePackage(packageName)
 	if built, ok := schemaPackage.Schemas[nameInPackage]; ok {
@@ -55,6 +73,7 @@ func (sc *SchemaCache) Schema(src protoreflect.MessageDescriptor) (RootSchema, e
 	return placeholder.To, nil
 }
 
+// refTo is called while building a schema. Callers must hold sc.mu.
 func (sc *SchemaCache) refTo(pkg, schema string) (*RefSchema, bool) {
 	refPackage := sc.referencePackage(pkg)
 	if existing, ok := refPackage.Schemas[schema]; ok {
@@ -70,6 +89,7 @@ func (sc *SchemaCache) refTo(pkg, schema string) (*RefSchema, bool) {
 	return refSchema, false
 }
 
+// referencePackage is called while building a schema. Callers must hold sc.mu.
 func (sc *SchemaCache) referencePackage(name string) *Package {
 	if existing, ok := sc.packages[name]; ok {
 		return existing
